@@ -256,6 +256,12 @@ func NewWorld(orbiterGenesisOverride json.RawMessage) (w *World, initErr error) 
 	w.mint(ctx, "fiat-tokenfactory", "M", "uusdc", initUser)
 	w.mint(ctx, "transfer", "M", "ustake", initUser)
 	w.mint(ctx, "transfer", "pool", "uswap", initEscrow)
+	// the big-amount denom: the whole range of sdkmath.Int (2^256-1) sits in escrow 0
+	maxInt, _ := math.NewIntFromString(big256)
+	bigCoins := sdk.NewCoins(sdk.NewCoin("ubig", maxInt))
+	must(app.BankKeeper.MintCoins(ctx, "transfer", bigCoins))
+	must(app.BankKeeper.SendCoinsFromModuleToAccount(ctx, "transfer", w.acct["esc0"], bigCoins))
+	app.TransferKeeper.SetTotalEscrowForDenom(ctx, bigCoins[0])
 	app.TransferKeeper.SetTotalEscrowForDenom(ctx, sdk.NewCoin("uusdc", math.NewInt(2*initEscrow)))
 	app.TransferKeeper.SetTotalEscrowForDenom(ctx, sdk.NewCoin("ustake", math.NewInt(2*initEscrow)))
 
